@@ -397,7 +397,9 @@ func capsFor(ext *extInfo) *plugin.Capabilities {
 	return c
 }
 
-func scanTree(root string, exts []*extInfo, caps *plugin.Capabilities) (s scanSummary, panicked string) {
+// opts is a bit set of scan options: 1 ErrorOnFSErrors, 2 StoreAbsolutePath, 4 UseGitignore,
+// 8 PrintDurationAnalysis.
+func scanTree(root string, exts []*extInfo, caps *plugin.Capabilities, opts int) (s scanSummary, panicked string) {
 	defer func() {
 		if p := recover(); p != nil {
 			panicked = fmt.Sprintf("%v\n%s", p, debug.Stack())
@@ -417,9 +419,13 @@ func scanTree(root string, exts []*extInfo, caps *plugin.Capabilities) (s scanSu
 		}
 	}()
 	res := scalibr.New().Scan(context.Background(), &scalibr.ScanConfig{
-		FilesystemExtractors: list,
-		Capabilities:         caps,
-		ScanRoots:            scalibrfs.RealFSScanRoots(root),
+		FilesystemExtractors:  list,
+		Capabilities:          caps,
+		ScanRoots:             scalibrfs.RealFSScanRoots(root),
+		ErrorOnFSErrors:       opts&1 != 0,
+		StoreAbsolutePath:     opts&2 != 0,
+		UseGitignore:          opts&4 != 0,
+		PrintDurationAnalysis: opts&8 != 0,
 	})
 	s = scanSummary{Status: res.Status.Status, Reason: res.Status.FailureReason, Pkgs: map[string][]string{}, Statuses: map[string]plugin.ScanStatusEnum{}, Reasons: map[string]string{}}
 	for _, p := range res.Inventory.Packages {
